@@ -177,18 +177,24 @@ impl<C: CrcCalculator> Encapsulator<C> {
         self.re_use_activated = false;
         self.re_max_consecutive = 0;
         self.re_current_consecutive = 0;
+        // labels are not tracked while re-use is disabled: forget the remembered one
+        self.last_label = None;
     }
 
     pub fn enable_re_use_label(&mut self) {
         self.re_use_activated = true;
         self.re_max_consecutive = 0;
         self.re_current_consecutive = 0;
+        // labels are not tracked while re-use is disabled: forget the remembered one
+        self.last_label = None;
     }
 
     pub fn enable_re_use_label_with_max_consecutive(&mut self, max_consecutive: u8) {
         self.re_use_activated = true;
         self.re_max_consecutive = max_consecutive;
         self.re_current_consecutive = 0;
+        // labels are not tracked while re-use is disabled: forget the remembered one
+        self.last_label = None;
     }
 
     pub fn is_enabled_re_use_label(&mut self) -> bool {
